@@ -44,6 +44,7 @@ theorem cfg_is_spec : cfg.readerPart = Cfg.spec := by
   case fullCopyLo => funext n; simp only [cfg, Cfg.readerPart, Cfg.spec, Facts.C17.fullCopyLo]
   case abrMark => rfl
   case fullEnvelope => decide
+  case fullSeqAfterCheck => rfl
 
   case padEnvelope => decide
   case tagAbridged => rfl
